@@ -310,6 +310,8 @@ var c09HeavyLoops = []struct{ name, script string }{
 	{"nested-foreach-over-big-arrays", `a = 1..100000; b = [a, a, a, a]; foreach x in b { foreach y in x { while (true) { z = 1; } } }`},
 	{"big-hash-on-the-stack", `a = 1..100000; h = {"p": a, "q": a, "r": a, "s": a}; foreach k, v1 in h { while (true) { z = 1; } }`},
 	{"big-values-in-variables-only", `a = 1..100000; b = [a, a, a, a, a, a, a, a]; while (true) { y = 1; }`},
+	{"spinning-nine-thousand-calls-deep", `function down_through_many_frames_with_a_long_name(n) { if (n <= 0) { while (true) { } } return down_through_many_frames_with_a_long_name(n - 1); } return down_through_many_frames_with_a_long_name(9000);`},
+	{"spinning-deep-in-mutual-recursion", `function ping(n) { if (n <= 0) { for (true) { } } return pong(n - 1); } function pong(n) { return ping(n - 1) + 0; } return ping(9000);`},
 	{"big-argument-of-spinning-call", `function spin(v, w) { while (true) { y = 1; } return 0; } a = 1..100000; return spin([a, a, a, a, a, a, a, a], a);`},
 }
 
@@ -322,7 +324,10 @@ const c09AllocBound = 4 << 20
 func c09WorkAfterCancel(c *ev.Ctx) {
 	var maxSeen uint64
 	for li, lp := range c09HeavyLoops {
-		for _, k := range []int64{200, 2000, 30000} {
+		for _, k := range []int64{200, 2000, 30000, 200000} {
+			if (k == 200000) != strings.HasPrefix(lp.name, "spinning-") {
+				continue // the deep shapes are cancelled once they spin at the bottom, the others earlier
+			}
 			for _, noOpt := range []bool{false, true} {
 				for _, run := range []bool{false, true} {
 					id := fmt.Sprintf("work-after-cancel/%s/%d/%v/%v", lp.name, k, noOpt, run)
